@@ -294,7 +294,17 @@ func executeOneStep(
 			copy(copiedInsertionPoint, insertionPoint)
 			insertPoints, err := executorFindInsertionPoints(ctx, resultLock, dependent.InsertionPoint, step.SelectionSet, queryResult, [][]string{copiedInsertionPoint}, step.FragmentDefinitions)
 			if err != nil {
-				return nil, nil, err
+				// the dependent steps can not run but the response of this step, and the errors
+				// that came with it, still have to make it back to the user
+				if queryErr != nil {
+					var errList graphql.ErrorList
+					if errors.As(queryErr, &errList) {
+						err = append(append(graphql.ErrorList{}, errList...), err)
+					} else {
+						err = graphql.ErrorList{queryErr, err}
+					}
+				}
+				return queryResult, nil, err
 			}
 
 			// this dependent needs to fire for every object that the insertion point references
